@@ -502,7 +502,7 @@ var c14NeighbourTemplates = []string{"sort([v, u, z])", "sort([z, v, u])", "sort
 func init() {
 	Register(&Property{
 		ID:            "C14",
-		Rule:          "documents whose number leaves are dyadic rationals k/2^m (|k| < 2^11, m <= 4: exact in json.Number, every int/uint width that fits, float32, float64 and decimal128) with 100 expression templates (+ - x / by powers of two, // %, unary signs, comparisons, == != incl. against literals and inside containers, contains, sort, sort_by, min/max(_by), sum, avg, abs/ceil/floor, truthiness, type, to_number, to_string round trip, filters, map, group_by and every integer-argument coercion fed from the document with integral, non-integral and negative values) and seeded random arithmetic expressions; baseline = all leaves as canonical json.Number; 6 random assignments of Go representations per case plus 7 uniform ones (every leaf float64 / float32 / int / int64 / uint / decimal128 / 'n.0') (json.Number spellings 5 / 5.0 / 5e0 / 50e-1, int..int64, uint..uint64, float32, float64, decimal128 in two exponents) must give the same outcome in value and error category (metamorphic, library against itself); dyadic-deep stream: m/2^k with k = 18..60 (16-34 significant digits: exact in float64, decimal128 and as text) in every pair of carriers through 20 comparison/sorting/arithmetic templates; precise stream: 17 numbers that need more precision than a float64 has (near-integers, 2^63-1 with a fraction part, long spellings of small integers) through 27 templates (every integer-argument position, comparisons, rounding, arithmetic) in every carrier that holds them exactly (json.Number spellings, decimal128, int64/uint64/float64 where exact) and against the exact model; boundary stream: 13 large integral values (2^31 .. 2^64, -2^63, 2^100) in every kind that holds them exactly through 31 templates (integer arguments, comparisons, sorting, arithmetic), and each of them together with its neighbours v-1 and v+1 through 20 ordering/equality templates; non-trivial = at least one leaf changed representation and the result is non-null; shortest-repr stream: a float64 x (|x| >= 2^26, exact expansion <= 34 digits) against the short decimal d that prints it, 25 templates (comparisons, contains, filters, containers, sort / max / min_by, subtraction), x as json.Number, float64, decimal128 (and float32 where exact); float-quotients stream: // and % on operand pairs whose float quotient rounds across an integer (quotients in [2^50, 2^53) with a remainder; an operand one ulp below a multiple of the divisor), 9 templates, every carrier pair (json.Number, float64, decimal128, int64, float32 where exact), against exact arithmetic",
+		Rule:          "documents whose number leaves are dyadic rationals k/2^m (|k| < 2^11, m <= 4: exact in json.Number, every int/uint width that fits, float32, float64 and decimal128) with 100 expression templates (+ - x / by powers of two, // %, unary signs, comparisons, == != incl. against literals and inside containers, contains, sort, sort_by, min/max(_by), sum, avg, abs/ceil/floor, truthiness, type, to_number, to_string round trip, filters, map, group_by and every integer-argument coercion fed from the document with integral, non-integral and negative values) and seeded random arithmetic expressions; baseline = all leaves as canonical json.Number; 6 random assignments of Go representations per case plus 7 uniform ones (every leaf float64 / float32 / int / int64 / uint / decimal128 / 'n.0') (json.Number spellings 5 / 5.0 / 5e0 / 50e-1, int..int64, uint..uint64, float32, float64, decimal128 in two exponents) must give the same outcome in value and error category (metamorphic, library against itself); dyadic-deep stream: m/2^k with k = 18..60 (16-34 significant digits: exact in float64, decimal128 and as text) in every pair of carriers through 20 comparison/sorting/arithmetic templates; precise stream: 17 numbers that need more precision than a float64 has (near-integers, 2^63-1 with a fraction part, long spellings of small integers) through 27 templates (every integer-argument position, comparisons, rounding, arithmetic) in every carrier that holds them exactly (json.Number spellings, decimal128, int64/uint64/float64 where exact) and against the exact model; boundary stream: 13 large integral values (2^31 .. 2^64, -2^63, 2^100) in every kind that holds them exactly through 31 templates (integer arguments, comparisons, sorting, arithmetic), and each of them together with its neighbours v-1 and v+1 through 20 ordering/equality templates; non-trivial = at least one leaf changed representation and the result is non-null; shortest-repr stream: a float64 x (|x| >= 2^26, exact expansion <= 34 digits) against the short decimal d that prints it, 25 templates (comparisons, contains, filters, containers, sort / max / min_by, subtraction), x as json.Number, float64, decimal128 (and float32 where exact); float-quotients stream: // and % on operand pairs whose float quotient rounds across an integer (quotients in [2^50, 2^53) with a remainder; an operand one ulp below a multiple of the divisor), 9 templates, every carrier pair (json.Number, float64, decimal128, int64, float32 where exact), against exact arithmetic; integer-sums stream: sum / avg / max / min / sort over Go integers (int64, uint64, mixed small kinds, decimal128, floats where exact) whose total creeps across 2^31, 2^32, 2^53, 2^63, -2^63 or 2^64 by 3..70 addends, half of the cases with all addends below 512",
 		MinNontrivial: 2000,
 		Streams: []Stream{
 			{Name: "assignments", N: func(c *Ctx) int { return tierN(c, 20000, 1000000) }, Run: c14Run},
